@@ -51,6 +51,13 @@ def _impl(tier, seed, search):
         L.close('q-conj-q', b.qqmul(a, b.conj(a)), np.r_[np.dot(a, a), 0, 0, 0], 1e-9, sa * sa, inp)
         L.close('matrix-form', b.matrix(a) @ c, b.qqmul(a, c), 1e-9, sa * sc, inp)
         L.close('inner', b.inner(a, c), float(np.dot(a, c)), 1e-9, sa * sc, inp)
+        # … through the classes too, unit quaternions on either hemisphere included (the inner product is signed)
+        u1_, u2_ = inputs.unitq(g), inputs.unitq(g)
+        for x1_, x2_ in ((u1_, u2_), (u1_, -u2_), (u1_, -u1_)):
+            ok, r = L.noraise('UQ.inner', lambda: (UnitQuaternion(x1_, norm=False, check=False).inner(UnitQuaternion(x2_, norm=False, check=False)), Quaternion(x1_).inner(Quaternion(x2_))), dict(a=x1_, b=x2_), 'inner through the classes')
+            if ok:
+                L.close('UQ.inner', float(r[0]), float(np.dot(x1_, x2_)), 1e-9, 1.0, dict(a=x1_, b=x2_), what='UnitQuaternion.inner is not the Euclidean inner product of the 4-vectors', sig='inner:class')
+                L.close('Q.inner', float(r[1]), float(np.dot(x1_, x2_)), 1e-9, 1.0, dict(a=x1_, b=x2_), sig='inner:class')
         w = g.normal(size=3) * _mag(g); sw = max(np.abs(w))
         L.close('dot-world', b.dot(a, w), 0.5 * b.qqmul(b.pure(w), a), 1e-9, sa * sw, dict(q=a, w=w))
         L.close('dot-body', b.dotb(a, w), 0.5 * b.qqmul(a, b.pure(w)), 1e-9, sa * sw, dict(q=a, w=w))
@@ -109,6 +116,11 @@ def _impl(tier, seed, search):
         if ua[0] >= 0.1 and ub[0] >= 0.1:
             full = b.qqmul(ua, ub)
             L.close('vvmul', b.vvmul(ua[1:], ub[1:]), full[1:], 1e-9, 1.0, dict(a=ua, b=ub))
+        # … and with one operand a small rotation (angle log-uniform 1e-8 .. 1 rad), in either position
+        ang_ = 10.0 ** g.uniform(-8, 0); us = np.r_[math.cos(ang_ / 2), math.sin(ang_ / 2) * inputs.unit_axis(g)]
+        if ub[0] >= 0.1:
+            for a_, b_ in ((us, ub), (ub, us), (us, us)):
+                L.close('vvmul(small)', b.vvmul(a_[1:], b_[1:]), b.qqmul(a_, b_)[1:], 1e-9, 1.0, dict(a=a_, b=b_, small_angle=ang_), sig='vvmul')
         # exp / log (1e-6): exp(log q) = q for non-zero vector part; log(exp q) = q for |v| in (0, pi)
         am2 = am.copy()
         if np.linalg.norm(am2[1:]) > 1e-3 * np.linalg.norm(am2):
@@ -140,6 +152,16 @@ def _impl(tier, seed, search):
                 L.close('udq-SE3', r[2], r[3], 1e-6, max(1.0, float(np.max(np.abs(r[3])))), dict(X=Xa.A, Y=Xb.A), what='(UDQ(X)*UDQ(Y)).SE3() differs from X*Y', sig='udq-product')
                 sgn = 1.0 if np.dot(r[4], r[5]) >= 0 else -1.0
                 L.close('udq-assoc', r[4], sgn * r[5], 1e-9, 30.0, dict(X=Xa.A, Y=Xb.A), sig='udq-product')
+            # mixed products: a unit dual quaternion times a general one (real part of any norm), either order — the matrix form and associativity
+            Gd = DualQuaternion(Quaternion(a), Quaternion(c)); Ud = UnitDualQuaternion(Xa)
+            def mixed():
+                return ((Ud * Gd).vec, Ud.matrix() @ Gd.vec, (Gd * Ud).vec, Gd.matrix() @ Ud.vec, ((Ud * Gd) * Ud).vec, (Ud * (Gd * Ud)).vec)
+            ok, r = L.noraise('udq*dq', mixed, dict(inp, X=Xa.A), 'UnitDualQuaternion * DualQuaternion')
+            if ok:
+                sc_ = max(1.0, float(np.max(np.abs(r[1]))), float(np.max(np.abs(r[3]))))
+                L.close('udq*dq:matrix', r[0], r[1], 1e-9, sc_, dict(inp, X=Xa.A), what='(U*G).vec differs from U.matrix() @ G.vec for a unit dual quaternion U and a general G', sig='udq*dq')
+                L.close('dq*udq:matrix', r[2], r[3], 1e-9, sc_, dict(inp, X=Xa.A), sig='udq*dq')
+                L.close('udq*dq:assoc', r[4], r[5], 1e-9, max(1.0, float(np.max(np.abs(r[5])))), dict(inp, X=Xa.A), sig='udq*dq')
             T = inputs.se3(g, 3)
             def udq_norm():
                 d_ = UnitDualQuaternion(SE3(T, check=False))
